@@ -39,6 +39,7 @@ pub fn record_c10(rng: &mut Rng, count: u64, out: &mut Out) {
       0 => {
         let c = if rng.bool() { special_cells(rng, depth) } else { Cell { b: rng.below(12) as u8, i: rng.below(n) as u32, j: rng.below(n) as u32 } };
         let h = hash_of_cell(depth, c);
+        crate::prime::cell(depth, h);
         let r = guarded(|| layer.to_ring(h));
         let back = r.and_then(|r| guarded(|| layer.from_ring(r)));
         out.emit(json!({"ev": "to_ring", "d": depth, "c": c.json(), "p": if r.is_none() { 1 } else { 0 }, "r": r.map_or(json!([]), big_digits),
@@ -162,7 +163,9 @@ pub fn record_c11(rng: &mut Rng, count: u64, out: &mut Out) {
           (nudge(lo, rng.below(3) as i32 - 1), nudge(la, rng.below(3) as i32 - 1).max(-HALF_PI).min(HALF_PI), "border")
         } else { gen_position(rng) };
         let f = face_of(nside, lon, lat);
+        crate::prime::ring(nside, lon, lat);
         let r = guarded(|| ring::hash(nside, lon, lat));
+        crate::prime::ring(nside, lon, lat);
         let r2 = guarded(|| ring::hash_with_dxdy(nside, lon, lat));
         let (dxm, dym, back, same) = match (r, r2) {
           (Some(h), Some((h2, dx, dy))) => {
